@@ -15,6 +15,10 @@ INT_EDGES = [0, 1, -1, 2, 9, 10, 11, 99, 100, 127, 128, -128, -129, 255, 256, 32
              -2 ** 200, 10 ** 40]
 
 
+WIRE_EDGES = [2 ** 63 - 1, 2 ** 63, -2 ** 63, -2 ** 63 - 1, -2 ** 63 - 2, 2 ** 64 - 1, 2 ** 64, 2 ** 64 + 1,
+              -2 ** 64 + 1, -2 ** 64, -2 ** 64 - 1, 2 ** 53 + 1, -2 ** 53 - 1, -2 ** 63 - 2 ** 40]
+
+
 def ints(lo=None, hi=None):
     edges = [x for x in INT_EDGES if (lo is None or x >= lo) and (hi is None or x <= hi)]
     if lo is not None:
@@ -22,7 +26,13 @@ def ints(lo=None, hi=None):
     if hi is not None:
         edges += [hi, hi - 1]
     edges = [x for x in edges if (lo is None or x >= lo) and (hi is None or x <= hi)]
-    return st.one_of(st.integers(min_value=lo, max_value=hi), st.sampled_from(edges))
+    # where the number formats of the wire codecs change representation (msgpack int64/uint64,
+    # IEEE doubles in JSON readers)
+    wire = [x for x in WIRE_EDGES if (lo is None or x >= lo) and (hi is None or x <= hi)]
+    alts = [st.integers(min_value=lo, max_value=hi), st.sampled_from(edges)]
+    if wire:
+        alts.append(st.sampled_from(wire))
+    return st.one_of(*alts)
 
 
 def decimals():
